@@ -565,7 +565,8 @@ class PortNamespace(collections.abc.MutableMapping, Port):
 
             if isinstance(port, PortNamespace):
                 # If the name does not appear at the start of any of the include rules we continue:
-                if include and not any(rule.startswith(port_name) for rule in include):
+                prefix = f'{port_name}{self.NAMESPACE_SEPARATOR}'
+                if include and not any(rule == port_name or rule.startswith(prefix) for rule in include):
                     continue
 
                 # Determine the sub exclude and include rules for this specific namespace
